@@ -45,6 +45,9 @@ def run_unit(unit, tier, known):
     else:
         rep = {"target": unit["target"], "results": [], "error": f"worker rc={rc}: {err[-1500:]}"}
     rep["unit"] = unit.get("id", unit["target"])
+    if unit.get("ignore"):          # clauses of a shared contract that belong to another property (listed in props.py, reported in the evidence)
+        rep["ignored"] = [r["name"] for r in rep["results"] if any(fnmatch.fnmatch(r["name"], pat) for pat in unit["ignore"])]
+        rep["results"] = [r for r in rep["results"] if r["name"] not in rep["ignored"]]
     return rep
 
 
@@ -207,7 +210,12 @@ def main():
             elif engine_errors: lines.append(f"ENGINE-ERROR property={pid} {engine_errors[0][:600]}"); code = 3
             elif lean_bad: lines.append(f"ENGINE-ERROR property={pid} lean library: missing={lean['missing']} unclean={lean['unclean']} {str(lean.get('error',''))[:300]}"); code = 3
             elif unknown: lines.append(f"UNDECIDED property={pid} obligation={unknown[0]['name']} path={unknown[0]['path']}"); code = 2
-        n_ob = len(obligations); n_dis = sum(r["status"] == "proved" for r in obligations)
+        # an obligation hit by an OPEN known finding is counted in its restricted form ("holds outside the finding's identifying predicate",
+        # re-proved by the worker) when the finding has an SMT predicate; otherwise it is the finding itself and is listed, not counted
+        kf_restricted = [r for r in obligations if r.get("known_finding") and r.get("meta", {}).get("known_restricted")]
+        kf_whole = [r for r in obligations if r.get("known_finding") and not r.get("meta", {}).get("known_restricted")]
+        n_ob = len(obligations) - len(kf_whole); n_dis = sum(r["status"] == "proved" for r in obligations) + len(kf_restricted)
+        if kf_restricted: by_backend["z3(restricted to the complement of a known finding)"] = len(kf_restricted)
         n_lean = len(P.get("lean", [])) if lean and lean["ok_for_property"] else 0
         if code == 0:
             lines.append(f"OK property={pid} obligations={n_ob + n_lean} discharged={n_dis + n_lean} (z3/cvc5 {n_dis}, lean {n_lean}) bounded_evaluations={hb['evaluations']}"
@@ -232,7 +240,8 @@ def main():
                "evaluations": max(1, hb["evaluations"] + n_ob), "distinct_nontrivial": max(2, hb["distinct_nontrivial"] + len({r["name"] for r in obligations})),
                "rule": "obligations: one per (contract clause | call-site precondition | loop/scan invariant step | safety condition) per feasible path; bounded parts: see coverage.bounded.parts[].rule",
                "explanation": P.get("explanation", ""),
-               "known_findings_observed": sorted(known_hits)}
+               "known_findings_observed": sorted(known_hits),
+               "known_finding_obligations": [{"obligation": r["name"], "path": r["path"], "finding": r["known_finding"], "counted_as": "restricted form proved (finding's predicate excluded)" if r in kf_restricted else "not counted: the obligation is the finding"} for r in kf_restricted + kf_whole]}
         ev = {"property_id": pid, "tier": tier, "seed": seed, "level": level, "coverage": cov,
               "assumptions": P.get("assumptions", []), "wall_s": round(time.time() - t0, 2), "violations": len(violations) + len(hviol) + len(meta_fail)}
         json.dump(ev, open(os.path.join(ROOT, "evidence", f"{pid}.json"), "w"), indent=1)
